@@ -88,8 +88,10 @@ theorem gen_goweb (n : Nat) :
   · unfold goWebWriteLo; omega
   · unfold goWebWriteHi; omega
 
-/-- the three hand-written parsers start with `defer func(){ if recover() != nil { err = … } }()` on a named result -/
-theorem gen_recover : recover_parseExtensions = true ∧ recover_parseKeyShare = true ∧ recover_parseClientHello = true := by
+/-- the hand-written parsers start with `defer func(){ if recover() != nil { err = … } }()` on a named result;
+`parseExtensions` may instead rely on the guard of `parseClientHello` when that is its only caller -/
+theorem gen_recover : recover_parseKeyShare = true ∧ recover_parseClientHello = true ∧
+    (recover_parseExtensions = true ∨ parseExtensionsOnlyUnderParseClientHello = true) := by
   decide
 
 theorem goWebWrite_id (data : Bytes) : goWebWrite data = data := by
@@ -466,7 +468,8 @@ turn out-of-range slicing in the hand-written ClientHello parsers into an error 
 theorem c09_total (cs : Chunks) (v : Verdict) (hv : Rejecting v) (evs : List Ev) :
     ((run cs v evs).1 = .web ∨ (run cs v evs).1 = .close) ∧
     (readFirstPacket cs).1.data.length ≤ 3000 ∧
-    (recover_parseExtensions = true ∧ recover_parseKeyShare = true ∧ recover_parseClientHello = true) := by
+    (recover_parseKeyShare = true ∧ recover_parseClientHello = true ∧
+      (recover_parseExtensions = true ∨ parseExtensionsOnlyUnderParseClientHello = true)) := by
   refine ⟨?_, ?_, gen_recover⟩
   · rcases c09_exact cs v hv evs with h | h
     · exact Or.inl h.1
